@@ -98,7 +98,7 @@ pub fn run(seed: u64, ntraces: usize) {
                     opj = json!({"op": "setLimit", "caller": hx(caller.as_bytes()), "limit": l.to_string()});
                 }
                 3 | 4 | 5 => {
-                    let (caller, a) = if let Some((_, ca)) = fo { (users[(ca / 10) as usize].clone(), users[(ca % 10) as usize].clone()) } else { (if r.chance(2, 3) { op.clone() } else { anyone.clone() }, r.pick(&users).clone()) };
+                    let (caller, a) = if let Some((_, ca)) = fo { (users[(ca / 10) as usize].clone(), users[(ca % 10) as usize].clone()) } else { (match r.below(8) { 0 => owner.clone(), 1 | 2 => anyone.clone(), _ => op.clone() }, r.pick(&users).clone()) };      // the deployer (owner) holds no role
                     let b = if fo.is_some() { users[0].clone() } else { r.pick(&users).clone() };
                     let (name, ep, args) = match k { 3 => ("addFL", "addFlowLimiter", vec![a.to_vec()]), 4 => ("removeFL", "removeFlowLimiter", vec![a.to_vec()]),
                                                       _ => ("transferFL", "transferFlowLimiter", vec![a.to_vec(), b.to_vec()]) };
@@ -106,7 +106,7 @@ pub fn run(seed: u64, ntraces: usize) {
                     opj = json!({"op": name, "caller": hx(caller.as_bytes()), "a": hx(a.as_bytes()), "b": hx(b.as_bytes())});
                 }
                 6 | 7 | 8 | 9 | 10 | 11 => {
-                    let (caller, a) = if let Some((_, ca)) = fo { (users[(ca / 10) as usize].clone(), users[(ca % 10) as usize].clone()) } else { (anyone.clone(), r.pick(&users).clone()) };
+                    let (caller, a) = if let Some((_, ca)) = fo { (users[(ca / 10) as usize].clone(), users[(ca % 10) as usize].clone()) } else { (if r.chance(1, 8) { owner.clone() } else { anyone.clone() }, r.pick(&users).clone()) };
                     let (name, ep) = match k { 6 => ("transferOp", "transferOperatorship"), 7 => ("proposeOp", "proposeOperatorship"), 8 => ("acceptOp", "acceptOperatorship"),
                                                9 => ("transferMint", "transferMintership"), 10 => ("proposeMint", "proposeMintership"), _ => ("acceptMint", "acceptMintership") };
                     step = w.tx(&caller, &tmaddr, ep, vec![a.to_vec()], &bn(0), &[]);
